@@ -27,12 +27,17 @@ UW = {"write_unchecked_to": 4, "4find&IndexMap": 4, "drop_glue": 4, "TupleMap": 
 HB = dict(crate="ohkami", strength="bounded", timeout=900, unwindset=UW,
           bound="operation histories of length <= 3 over {insert, append, remove} on one key, on top of one other live header; value lengths 0..2 and ownership fixed per position, value contents symbolic (any ASCII bytes)")
 HF = "response::headers::Headers::"
-QUICK_HIST = {0, 1, 2, 5, 8, 9, 10, 11, 18, 19, 20, 26, 29, 32, 33, 34, 35, 38}   # every history containing a remove followed by insert/append, plus the singletons
+QUICK_HIST = {0, 1, 2, 5, 8, 9, 10, 11, 18, 19, 20, 29, 32, 33, 35, 38}   # histories with two appends take 5-10 min each: thorough tier only
+# custom-header histories with two appends (String growth twice) end in "CBMC out of memory" even when run alone: not registered (stated in level_note)
+CUSTOM_UNAFFORDABLE = {7, 16, 22, 24, 25, 26, 28, 34}
+JOBS = 8   # several of these queries need > 4 GB; 16 at once exhaust the machine   # every history containing a remove followed by insert/append, plus the singletons
 for k in range(39):
     HARNESSES.append(H(f"c03_hdr_std_history_k{k:02d}", functions=[HF + "insert", HF + "append", HF + "remove", HF + "get_standard", HF + "write_unchecked_to", HF + "_write_to", "push_unchecked!"],
                        clauses=["after every operation size == 2 + sum(name+2+value+2) over the view", "view: set = latest, append = `old, new`, remove = absent; other header untouched",
                                 "serializer writes exactly `size` bytes, all inside the reserved allocation", "wire image has every live header exactly once with its latest value"],
                        tier="quick" if k in QUICK_HIST else "thorough", **HB))
+    if k in CUSTOM_UNAFFORDABLE:
+        continue
     HARNESSES.append(H(f"c03_hdr_custom_history_k{k:02d}", functions=[HF + "insert_custom", HF + "append_custom", HF + "remove_custom", HF + "get_custom", HF + "write_unchecked_to", "ohkami_lib::map::TupleMap::{insert,get,get_mut,remove,iter}"],
                        clauses=["after every operation size == 2 + sum(name+2+value+2) over the view", "view of the custom header; other header untouched",
                                 "serializer writes exactly `size` bytes, all inside the reserved allocation", "wire image"],
